@@ -134,3 +134,83 @@ pub fn u64_lattice(head_bits: u32, i: u64) -> u64 {
     let _ = head_bits;
     (head << sh) | low
 }
+
+/// fraction shapes of width nf (values < 2^nf): runs of ones from the top, runs of ones at the bottom,
+/// single bits, and a small menu
+pub fn shapes(nf: u32, rich: bool) -> Vec<u32> {
+    if nf == 0 {
+        return vec![0];
+    }
+    let full = ((1u64 << nf) - 1) as u32;
+    let mut v = vec![0, 1, full, full - (full > 0) as u32, 1 << (nf - 1), (1 << (nf - 1)) | 1, (1u32 << (nf - 1)).wrapping_sub(1) & full, 0x5555_5555 & full, 0x2aaa_aaaa & full];
+    for j in 1..nf {
+        v.push(full & !(((1u64 << (nf - j)) - 1) as u32)); // 1^j 0^(nf-j)
+        v.push(((1u64 << j) - 1) as u32); // 0^(nf-j) 1^j
+        if rich {
+            v.push(1 << j);
+            v.push((full & !(((1u64 << (nf - j)) - 1) as u32)) | 1); // 1^j 0.. 1
+        }
+    }
+    v.sort();
+    v.dedup();
+    v
+}
+
+/// positive posit with the given scale (= es-exponent + 2^es * regime k) and fraction shape index;
+/// returns None when the scale is out of range
+pub fn build(n: u32, es: u32, scale: i32, frac_of: impl Fn(u32) -> u32) -> Option<u32> {
+    let useed = 1i32 << es;
+    let k = scale.div_euclid(useed);
+    let e = scale.rem_euclid(useed) as u32;
+    let body = n - 1;
+    let (rbits, rl): (u64, u32) = if k >= 0 { ((((1u64 << (k + 1)) - 1) << 1), (k + 2) as u32) } else { (1, (-k + 1) as u32) };
+    if rl > body {
+        return None;
+    }
+    let avail = body - rl;
+    let ebits = avail.min(es);
+    if ebits < es && (e & ((1 << (es - ebits)) - 1)) != 0 {
+        return None;
+    }
+    let nf = avail - ebits;
+    let f = frac_of(nf);
+    Some(((rbits as u32) << (body - rl)) | ((e >> (es - ebits)) << nf) | f)
+}
+
+pub fn frac_bits(n: u32, es: u32, scale: i32) -> Option<u32> {
+    let nf = std::cell::Cell::new(0);
+    build(n, es, scale, |x| {
+        nf.set(x);
+        0
+    })?;
+    Some(nf.get())
+}
+
+
+/// "Tie plus one lone bit" values for the target format (n, es): for every representable scale s and a menu
+/// of kept fractions F (even and odd last bit), the exact value 2^s * (1.F 1 0...0 1): the guard bit set and a
+/// single further bit d places below the guard, for every d in 1..=depth; plus the exact tie itself (d = 0).
+/// Returned as (mantissa, exponent): value = mantissa * 2^exponent, mantissa odd except for d = 0.
+/// A converter that loses exactly one sticky position (or double-rounds through a narrower intermediate)
+/// misrounds one of these; sources keep the ones they can represent exactly.
+pub fn tie_bit_values(n: u32, es: u32, depth: u32, scales: std::ops::RangeInclusive<i32>) -> Vec<(u128, i32)> {
+    let mut v = vec![];
+    for s in scales {
+        let Some(nf) = frac_bits(n, es, s) else { continue };
+        let full = if nf == 0 { 0 } else { ((1u64 << nf) - 1) as u32 };
+        let mut fr = vec![0u32, 1 & full, full, full & !1, (0x5555_5555 & full), (0x2aaa_aaaa & full), (0x1234_5679 & full), (0x0edc_ba98 & full)];
+        fr.sort();
+        fr.dedup();
+        for f in fr {
+            let head: u128 = (((1u128 << nf) | f as u128) << 1) | 1; // 1.F followed by the guard bit
+            v.push((head, s - nf as i32 - 1));
+            for d in 1..=depth {
+                if nf + 2 + d > 120 {
+                    break;
+                }
+                v.push(((head << d) | 1, s - nf as i32 - 1 - d as i32));
+            }
+        }
+    }
+    v
+}
